@@ -401,6 +401,16 @@ fn main() {
                     let buf = background(&mut rng, pat, len);
                     let n = pixel_slots(bpp, len);
                     let mut scripts = vec![Value::Array((0..n + 2).map(|_| desc_step(0, 0)).collect())];
+                    // every consuming observation: on the fresh iterator, after one item, after draining with next()
+                    // (and one more call), after an nth() that lands exactly on the end / skips beyond it
+                    for term in 3..=5u8 {
+                        let nexts = |k: usize| (0..k).map(|_| desc_step(0, 0)).collect::<Vec<Value>>();
+                        for mut pre in [vec![], nexts(1), nexts(n), nexts(n + 1), vec![desc_step(1, n.saturating_sub(1))], vec![desc_step(1, n)],
+                                        vec![desc_step(1, n + 5)], vec![desc_step(0, 0), desc_step(1, n + 5)], vec![desc_step(1, usize::MAX)]] {
+                            pre.push(desc_step(term, 0));
+                            scripts.push(Value::Array(pre));
+                        }
+                    }
                     let (nscripts, steps) = if th { (40, 12) } else { (12, 8) };
                     for _ in 0..nscripts {
                         let st = rng.usize(1, steps);
